@@ -176,7 +176,7 @@ def table : List Opt := [
   ⟨"java.defaultmavenrepo", .list⟩,
   ⟨"buildconfig.Foo-Bar", .mapKey⟩, ⟨"buildconfig.foo-bar", .mapKey⟩,
   ⟨"plugin.foo.key", .plugin⟩, ⟨"plugin.foo.other", .plugin⟩,
-  ⟨"display.updatetitle", .bool⟩]
+  ⟨"display.updatetitle", .bool⟩, ⟨"please.version", .str⟩]
 
 def kindOf (o : Nat) : Kind := (table[o]?.map (·.kind)).getD .str
 def nameOf (o : Nat) : String := (table[o]?.map (·.name)).getD ""
